@@ -6,8 +6,11 @@ package main
 // mutex really serialises the read-check-update of the signer state.
 
 import (
+	"fmt"
+	"os"
 	"sync"
 	"sync/atomic"
+	"time"
 
 	"github.com/attestantio/go-eth2-client/spec/phase0"
 	specqbft "github.com/bloxapp/ssv-spec/qbft"
@@ -23,6 +26,29 @@ type raceItem struct {
 	res  outcome
 	done bool
 }
+
+// waitOrHang waits for the group; false if it has not finished after d (validation hangs).
+func waitOrHang(wg *sync.WaitGroup, d time.Duration) bool {
+	done := make(chan struct{})
+	go func() { wg.Wait(); close(done) }()
+	select {
+	case <-done:
+		return true
+	case <-time.After(d):
+		return false
+	}
+}
+
+// hang reports validation calls that never returned (C08: "without hanging") and ends the run: the stuck
+// goroutines cannot be cancelled.
+func hang(s *session, out *hx.Out, what string) {
+	s.report("C08", "message validation hangs: %s did not return within %v", what, hangAfter)
+	out.End()
+	out.Close()
+	os.Exit(0)
+}
+
+const hangAfter = 60 * time.Second
 
 func runRace(u *universe, out *hx.Out, prop string, seed uint64, n int) {
 	s := newSession(u, out, prop)
@@ -87,7 +113,9 @@ func runRace(u *universe, out *hx.Out, prop string, seed uint64, n int) {
 					res[w] = callValidator(bv, first)
 				}(w)
 			}
-			bw.Wait()
+			if !waitOrHang(&bw, hangAfter) {
+				hang(s, out, fmt.Sprintf("a burst of %d concurrent validations of one message", workers))
+			}
 			acc := 0
 			for _, o := range res {
 				out.Count("burst_" + o.class)
@@ -118,10 +146,16 @@ func runRace(u *universe, out *hx.Out, prop string, seed uint64, n int) {
 			}()
 		}
 		for _, it := range items {
-			ch <- it
+			select {
+			case ch <- it:
+			case <-time.After(hangAfter):
+				hang(s, out, fmt.Sprintf("all %d workers (validating messages of %d message ids)", workers, ids))
+			}
 		}
 		close(ch)
-		wg.Wait()
+		if !waitOrHang(&wg, hangAfter) {
+			hang(s, out, fmt.Sprintf("%d workers validating %d messages of %d message ids", workers, len(items), ids))
+		}
 		type ck struct {
 			vid         int
 			role        uint64
